@@ -240,6 +240,9 @@ class Model:
         m = self.module(modname)
         parts = qualname.split('.')
         c = m.classes.get(parts[0])
+        if c is None:
+            r = self.resolve_in_module(m, parts[0])        # defined in another module and imported here under this name
+            c = r if isinstance(r, ClassInfo) else None
         for p in parts[1:]:
             if c is None:
                 break
@@ -254,6 +257,9 @@ class Model:
         parts = qualname.split('.')
         if len(parts) == 1:
             f = m.functions.get(parts[0])
+            if f is None:
+                r = self.resolve_in_module(m, parts[0])    # defined in another module and imported here under this name
+                f = r if isinstance(r, FunctionInfo) else None
         else:
             try:
                 c = self.cls(modname, '.'.join(parts[:-1]))
@@ -267,6 +273,12 @@ class Model:
         if f is None:
             raise AnalysisError('anchor function %s.%s not found' % (modname, qualname))
         return f
+
+    def func_or_none(self, modname, qualname):
+        try:
+            return self.func(modname if isinstance(modname, str) else modname.name, qualname)
+        except AnalysisError:
+            return None
 
     def resolve_in_module(self, mod, name, _seen=None):
         """Resolve a global name of `mod` to ModuleInfo/ClassInfo/FunctionInfo,
